@@ -31,6 +31,25 @@ def main():
         import numpy as _np
         err0 = dict(_np.geterr())
         common.package_in_use()
+        if os.environ.get("VERIF_LOGLEVEL") != "default":
+            # likewise the logging level: the checks run with the package's loggers at DEBUG (records formatted, written to a null stream):
+            # what a debug message computes on the way must not touch the data
+            import logging as _logging
+            _null = open(os.devnull, "w")
+            for _nm in ("xfab", "xfab.tools", "xfab.laue", "xfab.structure", "xfab.symmetry", "xfab.detector", "xfab.sg", "xfab.parameters", "xfab.checks"):
+                _lg = _logging.getLogger(_nm)
+                _lg.setLevel(_logging.DEBUG)
+                for _h in _lg.handlers:
+                    try:
+                        _h.setStream(_null)
+                    except Exception:
+                        pass
+        if os.environ.get("VERIF_ERRSTATE") != "warn":
+            # the caller's numpy error state is part of the conditions the package runs under: the checks run with division by zero and
+            # invalid operations RAISING (a strict caller; the unchanged tree passes every check this way), the import-order probes in
+            # fresh interpreters run with numpy's defaults.  Underflow and overflow stay at their defaults (exp(-800) = 0 is legitimate).
+            _np.seterr(divide="raise", invalid="raise")
+            err0 = dict(_np.geterr())
         if a.replay:
             return mod.replay(a.replay, seed)
         return mod.run(a.tier, seed)
